@@ -235,7 +235,7 @@ CHECKS["C17"] = {
             "every flush of the trace; part of the cases are flushed as the maps of six aggregators handed to the backend at the same time.",
     "design_ref": "6/C17",
     "note": "values are compared to 1e-6 absolute (text formats print six decimals); series that a variant's documented naming cannot tell "
-            "apart (graphite legacy / basic drop tags and host, relay with tags disabled) are left out of the comparison; six recorded "
+            "apart (graphite legacy / basic drop tags and host, relay with tags disabled) are left out of the comparison; five recorded "
             "findings (known_findings.json) are reported as KNOWN-FINDING lines",
     "technique": "TLC design check of the batcher models + TLC judging of parsed-back payloads of real backends for TLC-generated aggregate states",
 }
